@@ -87,6 +87,97 @@ def run_one(sc, seed=0, keep=False):
         d.close()
 
 
+def scripted_one(sc, keep=False):
+    """the real client against a scripted (foreign) DM14 server: its first answer is an error response - status 'busy' (1)
+    or 'operation failed' (5), any first byte, an error code with an error indicator (EDCP 6 / 7) -; afterwards it serves a
+    single-frame read correctly.  The failed call raises naming the code; the next read succeeds."""
+    from .. import rt
+    from ..net import Bus, Stack, Peer
+    w = rt.World()
+    rt.activate(w)
+    try:
+        bus = Bus(w, base_lat=1e-3)
+        C = Stack(bus, 'C')
+        cca = C.add_ca(CLI, name_value=0x501)
+        cli = j1939.MemoryAccess(cca)
+        client = cli if sc.get('client', 'facade') == 'facade' else cli.query
+        st = {'n': 0}
+        data_ok = [0x21, 0x22, 0x23, 0x24]
+
+        def dm15(b0, status, err=0xFFFFFF, edcp=0xFF):
+            d = [b0, (1 << 4) + (status << 1) + 1, err & 0xFF, (err >> 8) & 0xFF, (err >> 16) & 0xFF, edcp, 0xFF, 0xFF]
+            srv.send((6 << 26) | (0xD8 << 16) | (CLI << 8) | SRV, bytes(d))
+
+        def on(fr):
+            if not fr.ext or fr.pf != 0xD9 or fr.ps != SRV:
+                return
+            cmd = ((fr.data[1] - 1) & 0x0F) >> 1
+            if cmd == 4:
+                return                                   # the client's closing message
+            st['n'] += 1
+            if st['n'] == 1:
+                b0 = {'zero': 0, 'count': fr.data[0], 'other': 0x55}[sc['b0']]
+                w.at(w.now + 1e-3, lambda: dm15(b0, sc['status'], sc['error'], sc['edcp']))
+            elif cmd == 1:
+                # a well-formed single-frame read: proceed, data, operation completed
+                n = fr.data[0]
+                w.at(w.now + 1e-3, lambda: dm15(n, 0))
+                w.at(w.now + 2e-3, lambda: srv.send((7 << 26) | (0xD7 << 16) | (CLI << 8) | SRV, bytes([n] + data_ok[:n] + [0xFF] * (7 - n))))
+                w.at(w.now + 3e-3, lambda: dm15(0, 4))
+        srv = Peer(bus, 'S', on)
+        w.run_for(0.005)
+        results = []
+
+        def app():
+            for k in range(2):
+                try:
+                    if k == 0 and sc['cmd'] == 'write':
+                        r = client.write(SRV, 1, 0x1000, [1, 2, 3, 4], 1, max_timeout=1)
+                    else:
+                        r = client.read(SRV, 1, 0x1000, 4, 1, False, True, max_timeout=1)
+                    results.append(('ret', None if r is None else list(r)))
+                except rt.Killed:
+                    raise
+                except BaseException as e:
+                    results.append(('exc', type(e).__name__, str(e)))
+                w.sleep(1.5)
+        w.spawn(app, name='cliapp')
+        w.run_for(6.0)
+        probs = []
+        if len(results) < 2:
+            probs.append("client call %d never returned" % (len(results) + 1))
+        else:
+            r0, r1 = results
+            if r0[0] != 'exc':
+                probs.append("an error response (status %d, error %s, EDCP %d) from the server made %s return %r instead of raising"
+                             % (sc['status'], hex(sc['error']), sc['edcp'], sc['cmd'], r0[1]))
+            elif hex(sc['error']) not in r0[2]:
+                probs.append("%s: the exception does not name the error code %s: %r" % (sc['cmd'], hex(sc['error']), r0[2][:70]))
+            if r1 != ('ret', data_ok):
+                probs.append("after an error response the next read did not succeed: %r" % (r1,))
+            extra = [f for f in bus.log if f.src == 'C' and f.pf == 0xD7]
+            if extra:
+                probs.append("the client sent its data (DM16) to a server that had answered with an error response")
+        for lt in w.threads:
+            if lt.exc is not None:
+                probs.append("%s died: %s" % (lt.name, lt.exc_type))
+        return probs, [f.brief() for f in bus.log] + [repr(results)] if keep else None
+    finally:
+        w.shutdown()
+
+
+def scripted_worker(item):
+    _k, chunk, seed = item
+    acc = Acc()
+    for sc in chunk:
+        probs, _ = scripted_one(sc)
+        acc.case(repr(sc), nontrivial=True, outcome=len(probs))
+        if probs:
+            acc.violation(csig(probs), dict(sc, part='scripted server'), None, probs[:3])
+    acc.sample({'scenario': dict(chunk[0], part='scripted server')})
+    return acc
+
+
 def csig(probs):
     import re
     p = probs[0]
@@ -100,6 +191,8 @@ def csig(probs):
 
 
 def worker(item):
+    if item[0] == 'scripted':
+        return scripted_worker(item)
     chunk, seed = item
     acc = Acc()
     for sc in chunk:
@@ -203,12 +296,25 @@ def run(tier, seed):
     sc = scenarios(tier, seed)
     n = max(1, len(sc) // 200)
     items = [(sc[i::n], seed) for i in range(n)]
+    scr = []
+    for cmd in ('read', 'write'):
+        for status in (1, 5):
+            for b0 in ('zero', 'count', 'other'):
+                for error in (0x11, 0x12, 0x100, 0x1003, 0x9999):
+                    for edcp in (6, 7):
+                        for client in ('facade', 'query'):
+                            scr.append({'cmd': cmd, 'status': status, 'b0': b0, 'error': error, 'edcp': edcp, 'client': client})
+    items += [('scripted', scr[i::8], seed) for i in range(8)]
     return run_check(PROP, tier, seed, 'fault_enumeration', items, worker, RULE, ASSUME,
                      bounds={'history_depth': 3 if tier == 'quick' else 5, 'keys': 'boundary' if tier == 'quick' else 'all 2^16 x 3 seeds'})
 
 
 def replay(rec):
-    probs, outcome, trace = run_one(rec['scenario'], rec.get('seed', 0), keep=True)
+    if rec['scenario'].get('part') == 'scripted server':
+        probs, trace = scripted_one(rec['scenario'], keep=True)
+        outcome = None
+    else:
+        probs, outcome, trace = run_one(rec['scenario'], rec.get('seed', 0), keep=True)
     print("\n".join(trace))
     if probs:
         print("REPRODUCED: " + "; ".join(probs[:4]))
